@@ -69,6 +69,10 @@ def bare_item(arg):
     return acc
 
 
+# the ends of the integer widths the boxes and descriptors behind the options have, each with its neighbours
+WIDTHS = [str(2 ** k + d) for k in (8, 16, 32, 33) for d in (-1, 0, 1)]
+
+
 def route_instances():
     out = []
     for stream in ('bbb', 'synirr', 'synvid', 'synnoref', 'synunidx', 'synempty', 'nosuch'):
@@ -252,7 +256,7 @@ def pair_item(arg):
     W.set_now(NOW)
     a, b = pair
     for va in PAIR_VALUES.get(a, ['1']):
-        for vb in PAIR_VALUES.get(b, VALUES if tier != 'quick' else ['', '0', '-1', 'abc', '9' * 30, '1.5', '\u00b2', 'PT5S', '2147483647', '{"a":1}', '{', '{0}']):
+        for vb in PAIR_VALUES.get(b, (VALUES if tier != 'quick' else ['', '0', '-1', 'abc', '9' * 30, '1.5', '\u00b2', 'PT5S', '2147483647', '{"a":1}', '{', '{0}']) + WIDTHS):
             url = with_query(path, {a: va, b: vb})
             r = w.get(url)
             acc.state((path, a, va, b, vb[:16]))
